@@ -236,6 +236,12 @@ where
                 let n = self.mref.with_manager_exclusive(|m| m.gc());
                 Ok(format!("collected {n}"))
             }
+            "PGC" => {
+                // collection under the *shared* lock (as the background collector does): used inside
+                // parallel blocks (C07), where it runs next to the operations of the other threads
+                let n = self.mref.with_manager_shared(|m| m.gc());
+                Ok(format!("collected {n}"))
+            }
             "ORDER" | "ORDERSEQ" => {
                 let order: Vec<VarNo> = tok[1..].iter().map(|t| t.parse().unwrap()).collect();
                 let n = self.nvars();
@@ -725,6 +731,7 @@ fn run_bool<F: BoolExt>(case: &Case, mref: F::ManagerRef, out: &mut dyn FnMut(St
 where
     for<'id> F::Manager<'id>: Manager + oxidd::HasWorkers,
     for<'id> <F::Manager<'id> as Manager>::InnerNode: HasLevel,
+    F::ManagerRef: Send,
 {
     let snap_each = case.param("snap") == Some("each");
     let mut it = BoolInterp::<F> {
@@ -738,8 +745,22 @@ where
     // gcall=1: a collection (which clears the apply cache) before every operation, so that no
     // memoised result can be served: the cache-free reference run of C06
     let gcall = case.param("gcall") == Some("1");
-    for line in &case.ops {
+    let mut idx = 0;
+    let mut par_no = 0u64;
+    while idx < case.ops.len() {
+        let line = &case.ops[idx];
+        idx += 1;
         let tok: Vec<&str> = line.split_whitespace().collect();
+        if tok[0] == "PAR" {
+            // PAR <k> ... ENDPAR: the lines `T<i> <op>` in between are executed by k OS threads
+            // concurrently on the one manager (C07)
+            let end = (idx..case.ops.len()).find(|&j| case.ops[j] == "ENDPAR").expect("ENDPAR");
+            let k: usize = tok[1].parse().unwrap();
+            par_no += 1;
+            run_par_block(&mut it, k, &case.ops[idx..end], case.param_u64("seed", 1) ^ (par_no << 32), case.param_u64("yield", 0), out);
+            idx = end + 1;
+            continue;
+        }
         if gcall && tok[0] != "SNAP" {
             it.core.mref.with_manager_exclusive(|m| m.gc());
         }
@@ -752,6 +773,212 @@ where
             out(format!("SNAP -> {}", it.snapshot()));
         }
     }
+}
+
+/// One parallel block: thread i executes its lines in order on a private interpreter that starts
+/// from a copy of the current slots; afterwards the op lines are printed in script order and the
+/// slots written / dropped by the threads are merged back (the generator keeps the destination
+/// slots of different threads disjoint).
+fn run_par_block<F: BoolExt>(
+    it: &mut BoolInterp<F>,
+    k: usize,
+    lines: &[String],
+    seed: u64,
+    yield_permille: u64,
+    out: &mut dyn FnMut(String),
+) where
+    for<'id> F::Manager<'id>: Manager + oxidd::HasWorkers,
+    for<'id> <F::Manager<'id> as Manager>::InnerNode: HasLevel,
+    F::ManagerRef: Send,
+{
+    let mut per: Vec<Vec<(usize, String)>> = vec![Vec::new(); k];
+    for (i, l) in lines.iter().enumerate() {
+        let (t, op) = l.split_once(' ').expect("T<i> op");
+        let ti: usize = t.trim_start_matches('T').parse().expect("thread index");
+        per[ti].push((i, op.to_string()));
+    }
+    out(format!("PAR {k} -> begin"));
+    vtrace::begin(seed, yield_permille);
+    let base = it.core.slots.clone();
+    let mref = it.core.mref.clone();
+    let barrier = std::sync::Barrier::new(k);
+    let results: Vec<(Vec<(usize, String, String)>, BTreeMap<usize, F>)> = std::thread::scope(|sc| {
+        let hs: Vec<_> = per
+            .iter()
+            .enumerate()
+            .map(|(ti, ops)| {
+                let barrier = &barrier;
+                let (my_mref, my_slots) = (mref.clone(), base.clone());
+                sc.spawn(move || {
+                    vtrace::enter_thread(ti, seed);
+                    let mut t = BoolInterp::<F> {
+                        core: Core { mref: my_mref, slots: my_slots },
+                        substs: BTreeMap::new(),
+                        sat_u64: Default::default(),
+                        sat_u128: Default::default(),
+                        sat_f64: Default::default(),
+                        sat_nat: Default::default(),
+                    };
+                    let mut res = Vec::new();
+                    barrier.wait();
+                    for (i, op) in ops {
+                        let tok: Vec<&str> = op.split_whitespace().collect();
+                        let r = match t.exec(&tok) {
+                            Ok(r) => r,
+                            Err(e) => format!("err {e}"),
+                        };
+                        res.push((*i, op.clone(), r));
+                    }
+                    t.substs.clear();
+                    (res, t.core.slots)
+                })
+            })
+            .collect();
+        hs.into_iter().map(|h| h.join().expect("thread of a parallel block panicked")).collect()
+    });
+    let events = vtrace::end();
+    let mut all: Vec<(usize, String, String)> = Vec::new();
+    for (res, slots) in results {
+        all.extend(res);
+        // merge: new or changed slots are written back, slots the thread dropped are removed
+        for (k2, f) in &slots {
+            if base.get(k2) != Some(f) {
+                it.core.slots.insert(*k2, f.clone());
+            }
+        }
+        for k2 in base.keys() {
+            if !slots.contains_key(k2) {
+                it.core.slots.remove(k2);
+            }
+        }
+    }
+    all.sort_by_key(|x| x.0);
+    for (_, op, r) in all {
+        out(format!("{op} -> {r}"));
+    }
+    for e in events {
+        out(e);
+    }
+    out("ENDPAR -> ok".to_string());
+}
+
+/// Event trace and schedule perturbation through the hooks of /repo (`--cfg oxidd_verif`);
+/// without the flag the functions do nothing.
+mod vtrace {
+    #[cfg(oxidd_verif)]
+    mod imp {
+        use oxidd_core::verif::site;
+        use std::cell::Cell;
+        use std::sync::atomic::{AtomicBool, AtomicU64, Ordering::Relaxed};
+        use std::sync::Mutex;
+
+        thread_local! {
+            static TID: Cell<usize> = const { Cell::new(99) };
+            static LEVEL: Cell<usize> = const { Cell::new(usize::MAX) };
+            static RNG: Cell<u64> = const { Cell::new(0x9e3779b97f4a7c15) };
+        }
+        static ON: AtomicBool = AtomicBool::new(false);
+        static PERMILLE: AtomicU64 = AtomicU64::new(0);
+        static LOG: Mutex<Vec<String>> = Mutex::new(Vec::new());
+        static COUNTS: [AtomicU64; 16] = [const { AtomicU64::new(0) }; 16];
+        static INSTALLED: AtomicBool = AtomicBool::new(false);
+
+        fn next_rand() -> u64 {
+            RNG.with(|r| {
+                let mut x = r.get();
+                x ^= x << 13;
+                x ^= x >> 7;
+                x ^= x << 17;
+                r.set(x);
+                x
+            })
+        }
+
+        fn hook(s: u32, data: &[usize]) {
+            if !ON.load(Relaxed) {
+                return;
+            }
+            COUNTS[(s as usize).min(15)].fetch_add(1, Relaxed);
+            match s {
+                site::GOI_LEVEL => LEVEL.with(|l| l.set(data[0])),
+                site::GOI_FOUND | site::GOI_NEW => {
+                    // the level mutex is held: the order of these entries is the order in which the
+                    // accesses to this level's unique table happened
+                    let mut e = format!(
+                        "EV G {} {} {} {}",
+                        TID.with(|t| t.get()),
+                        LEVEL.with(|l| l.get()),
+                        if s == site::GOI_NEW { "new" } else { "found" },
+                        data[0]
+                    );
+                    for d in &data[1..] {
+                        e.push(' ');
+                        e.push_str(&d.to_string());
+                    }
+                    LOG.lock().unwrap().push(e);
+                }
+                site::GC_REMOVE => {
+                    let e = format!("EV R {} {}", TID.with(|t| t.get()), data[0]);
+                    LOG.lock().unwrap().push(e);
+                }
+                _ => {}
+            }
+            // schedule perturbation (never while the event is being logged)
+            let p = PERMILLE.load(Relaxed);
+            if p > 0 && s != site::GOI_FOUND && s != site::GOI_NEW && s != site::GC_REMOVE {
+                let r = next_rand();
+                if r % 1000 < p {
+                    if (r >> 20) % 4 == 0 {
+                        let spins = (r >> 24) % 4000;
+                        for _ in 0..spins {
+                            std::hint::spin_loop();
+                        }
+                    } else {
+                        std::thread::yield_now();
+                    }
+                }
+            }
+        }
+
+        pub fn begin(seed: u64, permille: u64) {
+            if !INSTALLED.swap(true, Relaxed) {
+                oxidd_core::verif::set_hook(Some(Box::new(hook)));
+            }
+            let _ = seed;
+            LOG.lock().unwrap().clear();
+            for c in &COUNTS {
+                c.store(0, Relaxed);
+            }
+            PERMILLE.store(permille, Relaxed);
+            ON.store(true, Relaxed);
+        }
+        pub fn enter_thread(ti: usize, seed: u64) {
+            TID.with(|t| t.set(ti));
+            RNG.with(|r| r.set((seed ^ ((ti as u64 + 1) * 0x9e3779b97f4a7c15)) | 1));
+        }
+        pub fn end() -> Vec<String> {
+            ON.store(false, Relaxed);
+            let mut v = std::mem::take(&mut *LOG.lock().unwrap());
+            let mut c = String::from("EVSTAT");
+            for (i, n) in COUNTS.iter().enumerate() {
+                let n = n.load(Relaxed);
+                if n > 0 {
+                    c.push_str(&format!(" s{i}={n}"));
+                }
+            }
+            v.push(c);
+            v
+        }
+    }
+    #[cfg(not(oxidd_verif))]
+    mod imp {
+        pub fn begin(_seed: u64, _permille: u64) {}
+        pub fn enter_thread(_ti: usize, _seed: u64) {}
+        pub fn end() -> Vec<String> {
+            Vec::new()
+        }
+    }
+    pub use imp::*;
 }
 
 // ---------------------------------------------------------------------------
